@@ -2016,6 +2016,19 @@ def _has_stream_request_body(cls: type[RequestHandler]) -> bool:
     return cls._stream_request_body
 
 
+def _is_same_site_path(path: str) -> bool:
+    """Returns True if ``path`` can be used as-is as the target of a same-site redirect.
+
+    A ``Location`` that begins with two slashes is a "protocol-relative" URL: the
+    next segment is treated as a hostname instead of a part of the path (and browsers
+    treat a backslash in this position like a slash). One that does not begin with a
+    slash at all may be parsed as an absolute URL (request targets are not required
+    to begin with a slash). Redirecting to such a value taken from the request would
+    be an open redirect.
+    """
+    return path.startswith("/") and not path.startswith(("//", "/\\"))
+
+
 def removeslash(
     method: Callable[..., Awaitable[None] | None],
 ) -> Callable[..., Awaitable[None] | None]:
@@ -2034,6 +2047,8 @@ def removeslash(
             if self.request.method in ("GET", "HEAD"):
                 uri = self.request.path.rstrip("/")
                 if uri:  # don't try to redirect '/' to ''
+                    if not _is_same_site_path(uri):
+                        raise HTTPError(403, "cannot redirect path %r", uri)
                     if self.request.query:
                         uri += "?" + self.request.query
                     self.redirect(uri, permanent=True)
@@ -2062,6 +2077,8 @@ def addslash(
         if not self.request.path.endswith("/"):
             if self.request.method in ("GET", "HEAD"):
                 uri = self.request.path + "/"
+                if not _is_same_site_path(uri):
+                    raise HTTPError(403, "cannot redirect path %r", uri)
                 if self.request.query:
                     uri += "?" + self.request.query
                 self.redirect(uri, permanent=True)
@@ -2977,11 +2994,12 @@ class StaticFileHandler(RequestHandler):
             # but there is some prefix to the path that was already
             # trimmed by the routing
             if not self.request.path.endswith("/"):
-                if self.request.path.startswith("//"):
+                if not _is_same_site_path(self.request.path):
                     # A redirect with two initial slashes is a "protocol-relative" URL.
                     # This means the next path segment is treated as a hostname instead
                     # of a part of the path, making this effectively an open redirect.
-                    # Reject paths starting with two slashes to prevent this.
+                    # Reject paths starting with two slashes (or a slash and a
+                    # backslash, or no slash at all) to prevent this.
                     # This is only reachable under certain configurations.
                     raise HTTPError(
                         403, "cannot redirect path with two initial slashes"
